@@ -611,6 +611,11 @@ func (f *Frame) zeroInit(ref Term, t types.Type, st *State) {
 		if op == "Builder" {
 			e.setFamily(st, "Builder", store(e.family(st, "Builder", arraySort(SInt, SStr)), ref, e.U.strLit("")))
 		}
+		if op == "Mutex" {
+			// the zero value of a mutex is unlocked
+			e.famSort["Mutex.locked"] = arraySort(SInt, SBool)
+			e.setFamily(st, "Mutex.locked", store(e.family(st, "Mutex.locked", arraySort(SInt, SBool)), ref, tFalse))
+		}
 		return
 	}
 	switch x := t.Underlying().(type) {
